@@ -184,6 +184,11 @@ def r3_failure_surfaced(ctx):
 
 def r4_precipitation(ctx):
     """switching conditions of a sparingly soluble phase are mirror images; dissolved() removes the solid stoichiometrically"""
+    ee = ctx.func(CHEM, "Equilibrium.equilibrium_expr")
+    stores = [n for n in ast.walk(ee) if isinstance(n, ast.Attribute) and isinstance(n.ctx, ast.Store)]
+    ok = not stores and has(ee, "if isinstance(self.param, Expr): return self.param") and has(ee, "return MassActionEq([self.param])")
+    ctx.check(ok, CHEM + ":Equilibrium.equilibrium_expr", "constant-wrapped-afresh", "equilibrium_expr must wrap the constant the equilibrium has *now* (an Expr as is, a number as MassActionEq([param])) "
+              "and keep no copy on the object: the switching conditions compare Q with it; stores: %s" % [U(x) for x in stores], node=ee)
     fw = ctx.func(EQ, "EqSystem._fw_cond_factory.fw_cond")
     a = EQ + ":EqSystem._fw_cond_factory.fw_cond"
     arms = {}
@@ -331,7 +336,7 @@ RULES = [
     Rule("C08-R1", r1_flag_dataflow, 12, "sanity flag = check(returned vector, same initial concentrations) in root/_solve/roots"),
     Rule("C08-R2", r2_sanity_test, 6, "_result_is_sane: existential tests, True only when neither holds"),
     Rule("C08-R3", r3_failure_surfaced, 7, "failed solve warns; EqCalcResult stores one call's results"),
-    Rule("C08-R4", r4_precipitation, 8, "precipitation switching conditions mirror each other; dissolved() stoichiometric"),
+    Rule("C08-R4", r4_precipitation, 9, "precipitation switching conditions mirror each other; dissolved() stoichiometric"),
     Rule("C08-R6", r6_solver_chain_wiring, 14, "solver chain: one system per NumSys stage, no late-bound loop variable"),
     Rule("C08-R7", r7_skeleton, 19, "bracket arms, precipitate lookup, solver-factory dispatch, default guess"),
     Rule("C08-R5", r5_scalar_solver, 6, "scalar solver: residual K-Q along c0+nu*rc, result on the same coordinate"),
@@ -372,3 +377,5 @@ TWINS = [
 
 MUTANTS.append(Mutant("x0-ignores-the-guess", [(EQS, "    def internal_x0_cb(self, init_concs, params):\n        # reduce risk of stationary starting point\n",
                                                  "    def internal_x0_cb(self, x0, params):\n        # reduce risk of stationary starting point\n        init_concs = params[: self.eqsys.ns]\n")], "C08-R6", "starts-from-the-given-guess"))
+
+MUTANTS.append(Mutant("equilibrium-expr-memoised", [(CHEM, "            except AttributeError:\n                return MassActionEq([self.param])\n            else:\n                return convertible()", "            except AttributeError:\n                self._eq_expr = MassActionEq([self.param])\n                return self._eq_expr\n            else:\n                return convertible()")], "C08-R4", "constant-wrapped-afresh"))
